@@ -729,14 +729,31 @@ Lemma find_app' {A} (p : A -> bool) l1 l2 :
 Proof. induction l1 as [|a l1 IH]; cbn; [reflexivity|]. destruct (p a); [reflexivity|exact IH]. Qed.
 
 (* saving twice equals saving once, on a table where only the PAIR (id, region) identifies a row *)
-Lemma csave_twice t v : res_tbl (csave (res_tbl (csave t v)) v) = res_tbl (csave t v).
+Lemma csave_keyed_twice t v : res_tbl (csave_keyed (res_tbl (csave_keyed t v)) v) = res_tbl (csave_keyed t v).
 Proof.
-  unfold csave at 2 3. destruct (clookup t v) as [r|] eqn:L; cbn [res_tbl].
-  - unfold csave. destruct (clookup_cupd_some t v r (copy_cols [CAge; CEmail] v) L (copy_qn_key v)) as [r' L'].
+  unfold csave_keyed at 2 3. destruct (clookup t v) as [r|] eqn:L; cbn [res_tbl].
+  - unfold csave_keyed. destruct (clookup_cupd_some t v r (copy_cols [CAge; CEmail] v) L (copy_qn_key v)) as [r' L'].
     rewrite L'. cbn [res_tbl]. apply cupd_idem.
-  - rewrite (ccreate_other_member t (Some RAll) v L). cbn [res_tbl]. unfold csave.
+  - rewrite (ccreate_other_member t (Some RAll) v L). cbn [res_tbl]. unfold csave_keyed.
     assert (L2 : clookup (t ++ [v]) v = Some v).
     { unfold clookup. rewrite find_app'. unfold clookup in L. rewrite L. cbn. now rewrite ckey_refl. }
     rewrite L2. cbn [res_tbl]. unfold cupd. rewrite map_app. cbn [map]. rewrite ckey_refl, copy_qn_self. f_equal.
     rewrite <- (map_id t) at 2. apply map_ext_in. intros x Hx. now rewrite (clookup_none_all t v L x Hx).
+Qed.
+
+(* a value with a zero-valued key member is INSERTED whatever rows share its other member *)
+Lemma csave_zero_member t v : ckey_zero v = true -> clookup t v = None ->
+  csave t v = mk_result v 1 false 1 (t ++ [v]).
+Proof. intros Z L. unfold csave. rewrite Z. now apply ccreate_other_member. Qed.
+
+(* ... also for a value with a zero-valued key member: the first Save inserts it (or fails on a stored row
+   with that very key), the second one fails and leaves the table as it is *)
+Lemma csave_twice t v : res_tbl (csave (res_tbl (csave t v)) v) = res_tbl (csave t v).
+Proof.
+  unfold csave. destruct (ckey_zero v); [|apply csave_keyed_twice].
+  unfold ccreate at 2 3. destruct (clookup t v) as [r|] eqn:L; cbn [res_tbl].
+  - unfold ccreate. now rewrite L.
+  - unfold ccreate. assert (L2 : clookup (t ++ [v]) v = Some v).
+    { unfold clookup. rewrite find_app'. unfold clookup in L. rewrite L. cbn. now rewrite ckey_refl. }
+    now rewrite L2.
 Qed.
